@@ -30,6 +30,7 @@ fn fault_cfg(seed: u64, index: u64) -> HistCfg {
         leave_free: if index % 3 != 0 && rng.chance(1, 4) { Some((*rng.pick(&[1u32, 4, 30]), rng.below(3) as u32)) } else { None },
         force_two_fats: false,
         fsinfo: None,
+        full_dir: false,
     }
 }
 
